@@ -29,6 +29,7 @@ def run_case(tape, tier):
     feat["real"] = False
     feat["kbint_sleep"] = False
     feat["allow_empty"] = True
+    feat["manual_step"] = False      # both runs go through the scheduler's own entry points
     feat["T"] = list(feat["T"]) + [0.0]    # tock 0.0: run everything as soon as possible, tyme stands still
     prog = sched.gen_program(tape, feat)
     nnoise = tape.draw("nnoise", 4)
